@@ -253,6 +253,19 @@ def run_history(arg) -> dict:
 
 
 def run_isolated(child, args: tuple, limit: float = 60.0) -> dict:
+    """child(conn, *args) in a forked process.  A child that dies without an answer (killed by a signal - e.g. by the kernel under
+    memory pressure - or crashed) is run once more; dying twice is reported as `_died_twice` (a reproducible crash is a finding)."""
+    out = _run_isolated_once(child, args, limit)
+    if out.get("_died"):
+        again = _run_isolated_once(child, args, limit)
+        if again.get("_died"):
+            return {"_died_twice": True, "how": [out.get("how"), again.get("how")]}
+        again["_retried_after_death"] = out.get("how")
+        return again
+    return out
+
+
+def _run_isolated_once(child, args: tuple, limit: float = 60.0) -> dict:
     import pickle
     import select
     import signal
@@ -298,16 +311,24 @@ def run_isolated(child, args: tuple, limit: float = 60.0) -> dict:
                 break
     finally:
         os.close(r)
+        how = ""
         try:
-            os.kill(pid, signal.SIGKILL)
-        except ProcessLookupError:
-            pass
-        os.waitpid(pid, 0)
+            wp, status = os.waitpid(pid, os.WNOHANG)
+        except ChildProcessError:
+            wp, status = pid, 0
+        if wp == 0:
+            try:
+                os.kill(pid, signal.SIGKILL)
+            except ProcessLookupError:
+                pass
+            os.waitpid(pid, 0)
+        else:
+            how = f"signal {os.WTERMSIG(status)}" if os.WIFSIGNALED(status) else f"exit status {os.WEXITSTATUS(status)}"
     if out is None:
         if len(buf) >= 8 and len(buf) >= 8 + int.from_bytes(buf[:8], "big"):
             out = pickle.loads(buf[8:8 + int.from_bytes(buf[:8], "big")])
         else:
-            out = {"_error": "history child died"}
+            out = {"_died": True, "how": how or "pipe closed without an answer"}
     return out
 
 
@@ -348,7 +369,7 @@ def main() -> int:
     hist += h3 if thorough else rng.sample(h3, 300)
     fresh = {}
     for c, r in zip(CALLS, pmap(run_history, [([c], True) for c in CALLS], limit=90.0, chunk=1)):
-        if r.get("_error") or r.get("_timeout"):
+        if r.get("_error") or r.get("_timeout") or r.get("_died_twice"):
             raise common.MachineryError(f"fresh run of {c} failed: {r}")
         fresh[c] = r["results"][0]["digest"]
     plain = {}
@@ -359,6 +380,9 @@ def main() -> int:
     runs = pmap(run_history, [(list(h), True) for h in hist], limit=120.0, chunk=1)
     cases, meta = [], []
     for h, r in zip(hist, runs):
+        if r.get("_died_twice"):
+            rep.violation("history:process-died", {"history": [list(x) for x in h], "how": r.get("how")})
+            continue
         if r.get("_error"):
             raise common.MachineryError("history run failed: " + str(r)[:300])
         if r.get("_timeout"):
